@@ -727,6 +727,9 @@ def _discharge(ctx, ob, timeout_ms=None, outside=None, known_ids=()):
     #    feeds the wf axioms with ever new terms (parent of parent of ...), which starves the instantiation that is needed.
     v = None
     if not inductive or ob.kind == 'pre':
+        # most obligations go through directly in well under a second: only when that fails is the abstraction tried
+        v, be, dt, extra = check_valid(ctx, ob.hyps, ob.goal, 1000, use_cli=False, full=False)
+    if v != 'proved' and (not inductive or ob.kind == 'pre'):
         try:
             ah, ag = abstract_recfuns(ctx, ob.hyps, ob.goal)
             # first with the tree axioms alone (sequence and fold axioms bring the sequence solver in), then with all axioms
@@ -742,6 +745,18 @@ def _discharge(ctx, ob, timeout_ms=None, outside=None, known_ids=()):
     # 1. e-matching only; 2. fold induction; 3. full z3 (model finding); 4. CLI back ends on the SMT-LIB dump
     if v != 'proved':
         v, be, dt, extra = check_valid(ctx, ob.hyps, ob.goal, timeout_ms, use_cli=False, full=False)
+    if v != 'proved' and outside is not None:
+        # recorded known-finding region: prove on its complement before spending the budget on refutation
+        hy = list(ob.hyps) + [outside]
+        v2, be2, _, _ = check_valid(ctx, hy, ob.goal, timeout_ms, use_cli=False, full=False)
+        if v2 != 'proved' and inductive:
+            ind = induction(ctx, hy, ob.goal, timeout_ms)
+            if ind is not None and ind[0] == 'proved':
+                v2, be2 = 'proved', ind[1]
+        if v2 == 'proved':
+            res.update(verdict='proved-outside-known', verdict_plain=v, known=list(known_ids), backend=be2,
+                       seconds=round(time.time() - t0, 3))
+            return res
     if v != 'proved' and z3.is_and(ob.goal) and ob.goal.num_args() > 1:
         # a conjunction: each conjunct on its own (smaller search per query), each with a small portfolio of solver seeds
         # (instantiation order decides whether e-matching finds the short proof before the sequence solver is drawn in)
@@ -756,18 +771,6 @@ def _discharge(ctx, ob, timeout_ms=None, outside=None, known_ids=()):
             return False
         if all(one(ob.goal.arg(k)) for k in range(ob.goal.num_args())):
             v, be = 'proved', f'z3-5.1(api) goal split into {ob.goal.num_args()} conjuncts (seed portfolio)'
-    if v != 'proved' and outside is not None:
-        # recorded known-finding region: prove on its complement before spending the budget on refutation
-        hy = list(ob.hyps) + [outside]
-        v2, be2, _, _ = check_valid(ctx, hy, ob.goal, timeout_ms, use_cli=False, full=False)
-        if v2 != 'proved' and inductive:
-            ind = induction(ctx, hy, ob.goal, timeout_ms)
-            if ind is not None and ind[0] == 'proved':
-                v2, be2 = 'proved', ind[1]
-        if v2 == 'proved':
-            res.update(verdict='proved-outside-known', verdict_plain=v, known=list(known_ids), backend=be2,
-                       seconds=round(time.time() - t0, 3))
-            return res
     if v != 'proved' and inductive:
         ind = induction(ctx, ob.hyps, ob.goal, timeout_ms)
         if ind is not None and ind[0] == 'proved':
